@@ -12,6 +12,7 @@
 global size_of usize == 8;   // cfg: x86_64
 pub mod io {
     use vstd::prelude::*;
+    #[derive(Debug)]
     pub struct Error { pub k: u8 }
     pub enum ErrorKind { Other, BrokenPipe, InvalidData, InvalidInput, UnexpectedEof }
     impl Error {
@@ -20,7 +21,7 @@ pub mod io {
     }
     pub type Result<T> = core::result::Result<T, Error>;
     pub enum SeekFrom { Start(u64), End(i64), Current(i64) }
-    pub use super::{Read, Write, Seek, Cursor};
+    pub use super::{Read, Write, Seek, Cursor, Take, BufReader, DynRead};
 }
 
 pub struct LittleEndian;
@@ -96,11 +97,15 @@ pub trait Dev {
     spec fn g_bytes(&self) -> Seq<u8>;
     spec fn g_pos(&self) -> int;
     spec fn g_fault(&self) -> bool;
+    // "calling read/write on this object cannot panic": true for devices and by default; an adapter that
+    // can be in an unusable state (ZipFileReader::NoReader) overrides it, adapters over a generic inner
+    // reader forward it.  `Read::read` requires it, so every call site has to establish it.
+    open spec fn g_ready(&self) -> bool { true }
 }
 
 // what every operation on a device preserves / guarantees, whatever its outcome
 pub open spec fn dev_step<T: Dev + ?Sized>(a: &T, b: &T) -> bool {
-    a.g_dev() ==> b.g_dev() && 0 <= b.g_pos() <= MAX_OFF && b.g_bytes().len() <= MAX_OFF
+    a.g_dev() ==> b.g_dev() && b.g_ready() && 0 <= b.g_pos() <= MAX_OFF && b.g_bytes().len() <= MAX_OFF
         && (a.g_fault() ==> b.g_fault())
 }
 // a read-side step: content is never changed by reading or seeking
@@ -108,7 +113,7 @@ pub open spec fn rd_step<T: Dev + ?Sized>(a: &T, b: &T) -> bool {
     dev_step(a, b) && (a.g_dev() ==> b.g_bytes() == a.g_bytes())
 }
 pub open spec fn dev_ok<T: Dev + ?Sized>(a: &T) -> bool {
-    a.g_dev() && 0 <= a.g_pos() <= MAX_OFF && a.g_bytes().len() <= MAX_OFF
+    a.g_dev() && a.g_ready() && 0 <= a.g_pos() <= MAX_OFF && a.g_bytes().len() <= MAX_OFF
 }
 
 // Source.  Every call may fail; a failure says nothing about the position
@@ -116,6 +121,8 @@ pub open spec fn dev_ok<T: Dev + ?Sized>(a: &T) -> bool {
 // end of data or for an empty buffer, as std documents).
 pub trait Read: Dev {
     fn read(&mut self, buf: &mut [u8]) -> (r: io::Result<usize>)
+        requires
+            old(self).g_ready(),
         ensures
             final(buf)@.len() == old(buf)@.len(),
             r matches Ok(n) ==> n <= old(buf)@.len(),
@@ -272,4 +279,69 @@ impl<'a> Read for Cursor<&'a Vec<u8>> {
 impl<'a> Seek for Cursor<&'a Vec<u8>> {
     #[verifier::external_body]
     fn seek(&mut self, p: io::SeekFrom) -> (r: io::Result<u64>) { unimplemented!() }
+}
+
+// io::Take / io::BufReader (TRUSTED: std semantics)
+pub struct Take<R> { pub inner: R, pub limit: u64 }
+impl<R> Take<R> {
+    pub fn into_inner(self) -> (r: R) ensures r == self.inner { self.inner }
+    pub fn limit(&self) -> (r: u64) ensures r == self.limit { self.limit }
+}
+impl<R> Dev for Take<R> {
+    open spec fn g_dev(&self) -> bool { false }
+    open spec fn g_bytes(&self) -> Seq<u8> { Seq::empty() }
+    open spec fn g_pos(&self) -> int { 0 }
+    open spec fn g_fault(&self) -> bool { false }
+}
+// what one read through a Take over a device does
+pub open spec fn take_read<R: Dev>(a_inner: R, a_limit: u64, b_inner: R, b_limit: u64, buf_len: int, out: Seq<u8>, ok: bool, n: int) -> bool {
+    rd_step(&a_inner, &b_inner)
+    && (ok ==> n <= buf_len && n <= a_limit && b_limit == a_limit - n)
+    && (a_inner.g_dev() ==> (!ok ==> b_inner.g_fault()))
+    && (a_inner.g_dev() ==> (ok ==> b_inner.g_fault() == a_inner.g_fault() && b_inner.g_pos() == a_inner.g_pos() + n
+            && (n > 0 ==> inb(a_inner.g_bytes(), a_inner.g_pos(), n) && out.subrange(0, n) == at(a_inner.g_bytes(), a_inner.g_pos(), n))
+            && (n == 0 ==> (buf_len == 0 || a_limit == 0 || a_inner.g_pos() >= a_inner.g_bytes().len()))))
+}
+impl<'a> Read for Take<DynRead<'a>> {
+    #[verifier::external_body]
+    fn read(&mut self, buf: &mut [u8]) -> (r: io::Result<usize>)
+        ensures
+            final(buf)@.len() == old(buf)@.len(),
+            take_read(old(self).inner, old(self).limit, final(self).inner, final(self).limit, old(buf)@.len() as int, final(buf)@, r is Ok,
+                      (if r is Ok { r->Ok_0 as int } else { 0 })),
+    { unimplemented!() }
+}
+pub mod iox {
+    // `reader.take(n)` on `&mut dyn Read` (std: Read::take)
+    pub trait TakeExt: Sized { fn take(self, limit: u64) -> (r: super::Take<Self>) ensures r.limit == limit, r.inner == self; }
+}
+pub use iox::TakeExt;
+impl<'a> TakeExt for DynRead<'a> {
+    fn take(self, limit: u64) -> (r: Take<Self>) { Take { inner: self, limit } }
+}
+// T8: `&mut dyn Read` is represented by this opaque reborrow of some reader; T7x `(reader as &mut dyn Read)`
+// becomes shim_as_dyn_read(reader): same object, same ghost state (TRUSTED)
+#[verifier::external_body]
+pub struct DynRead<'a> { r: &'a mut u8 }
+impl<'a> Dev for DynRead<'a> {
+    uninterp spec fn g_dev(&self) -> bool;
+    uninterp spec fn g_bytes(&self) -> Seq<u8>;
+    uninterp spec fn g_pos(&self) -> int;
+    uninterp spec fn g_fault(&self) -> bool;
+}
+impl<'a> Read for DynRead<'a> {
+    #[verifier::external_body]
+    fn read(&mut self, buf: &mut [u8]) -> (r: io::Result<usize>) { unimplemented!() }
+}
+#[verifier::external_body]
+pub fn shim_as_dyn_read<'a, R: Read>(reader: &'a mut R) -> (r: DynRead<'a>)
+    ensures r.g_dev() == old(reader).g_dev(), r.g_bytes() == old(reader).g_bytes(), r.g_pos() == old(reader).g_pos(),
+        r.g_fault() == old(reader).g_fault(),
+{ unimplemented!() }
+
+#[verifier::external_body] #[verifier::accept_recursive_types(R)]
+pub struct BufReader<R> { r: R }
+impl<R> BufReader<R> {
+    pub uninterp spec fn g_inner(&self) -> R;
+    #[verifier::external_body] pub fn into_inner(self) -> (r: R) ensures r == self.g_inner() { unimplemented!() }
 }
